@@ -1,8 +1,9 @@
 (* Kernel/Intr.v -- C04: interrupts reach a live process once, in issue order, ahead of ordinary events.
    Theorems about Kernel/Model.v for ALL code tables [codes] and ALL states reachable ([reach], Kernel/IntrStep.v)
    from [init_state] by module-level code, run() preludes and steps -- an execution being followed up to the first
-   step whose callback loop is cut short while process resumptions are still waiting in it ([step_clean]: an
-   exception escaping from the middle of the loop, out-of-fuel, or StopSimulation ahead of a _resume).
+   step whose callback loop is cut short ([step_clean] fails: an exception escaping from the middle of the loop --
+   invalid yield, a forged event id --, or out-of-fuel; the StopSimulation of run(until=...) is not such a cut: the
+   repaired kernel raises it after the loop).
 
    interrupt_refused_*      dead victim (generator ended, even if the termination event is still on the agenda) or
                             oneself: RuntimeError, state unchanged; [finish_is_dead], [dead_forever]
